@@ -1,8 +1,8 @@
 """C16 - Saving and loading returns an equal object for every type and file format.
 
 Specification: specs/Persist.tla - a file system over two paths, a catalogue of in-memory objects
-of the eight kinds, actions Save(obj, path, fmt, overwrite, mode in path / fresh handle / kept
-handle) with outcome Ok | Refused, Load and Close.  Save is modelled in the stages of the code
+of the eight kinds, actions Save(obj, path, fmt, overwrite, mode in str path / pathlib.Path /
+fresh handle / kept handle) with outcome Ok | Refused, Load and Close.  Save is modelled in the stages of the code
 (to_dict, remove_file, existence guard, append-mode HDF5 writer / truncating pickle writer) and the
 clauses of the property are stated independently over the history: LoadReturnsLastSaved,
 FileHoldsLastSaved, RefusalExactly, RefusedLeavesFsUnchanged, OverwriteIsReplaceNotMerge,
@@ -40,7 +40,7 @@ PID = 'C16'
 INVS = ['TypeOK', 'LoadReturnsLastSaved', 'FileHoldsLastSaved', 'RefusalExactly', 'RefusedLeavesFsUnchanged',
         'OverwriteIsReplaceNotMerge', 'FrameOtherPath', 'SaveLeavesObjectUnchanged', 'NoMerge']
 # deliberately broken designs of Persist.tla and the invariant (checked alone) that must catch each
-BROKEN = {'no_remove': 'OverwriteIsReplaceNotMerge', 'no_guard': 'NoMerge', 'refusal_cleans_up': 'RefusedLeavesFsUnchanged',
+BROKEN = {'no_remove': 'OverwriteIsReplaceNotMerge', 'no_guard': 'NoMerge', 'guard_str_only': 'RefusalExactly', 'refusal_cleans_up': 'RefusedLeavesFsUnchanged',
           'pkl_refuses': 'RefusalExactly', 'writer_marks': 'SaveLeavesObjectUnchanged'}
 
 
@@ -193,7 +193,9 @@ def _trace_key(st, clause, expected):
             return f"d/{e['fmt']}/object-changed"
         pre = f"e/{e['fmt']}/{e['mode']}/{st['sit']}"
         if clause == 'outcome':
-            return pre + ('/not-refused' if expected.get('out') == 'Refused' else '/refused-unexpectedly')
+            return pre + ('/' + st.get('nr', 'not-refused') if expected.get('out') == 'Refused' else '/refused-unexpectedly')
+        if st['out'] == 'Refused':
+            return pre + '/refused-but-modified'
         return pre + '/' + P.why_class(st.get('why', ''))
     if clause == 'mem':
         return f"d/{e['fmt']}/object-changed-by-load"
@@ -410,26 +412,34 @@ def run(ctx):
                        '(numbers and containers compared by value, str vs bytes distinguished, dtype of the main array kept)',
                        'models have no save(): they are written with the public dict writers composed like the save() methods',
                        'a handle save without overwrite onto existing content is outside the contract (not enabled in the specification)',
+                       'a pathlib.Path target has the semantics of the str naming the same file; its refusal may be any exception as long as the file still holds exactly the old object',
                        'value types the property does not list (tuple, nested dict, object-dtype string array) are reported as unsupported, not as violations',
                        'fitter of a Result is not part of the saved state (the property does not list it)']
     thorough = ctx.tier == 'thorough'
     with mp.Pool(16) as pool:
         # ---- the model itself + emission of histories
         if thorough:
-            runs = [(2, 'KA_all', 'AllModes', 1), (3, 'KA_quick', 'AllModes', 30), (4, 'KA_small', 'NoKept', 1200)]
+            runs = [(2, 'KA_all', 'AllModes', 2), (3, 'KA_quick', 'AllModes', 80), (4, 'KA_small', 'Names', 1200),
+                    (4, 'KA_small', 'PathFresh', 1200)]
         else:
-            runs = [(2, 'KA_all', 'AllModes', 6), (3, 'KA_small', 'AllModes', 100)]
+            runs = [(2, 'KA_all', 'AllModes', 10), (3, 'KA_small', 'AllModes', 250)]
         ctx.exhaustive = False
         results = []
         for depth, ka, modes, mod in runs:
-            r = ctx.tlc('MC_Persist', cfg(depth, ka=ka, modes=modes, emitmod=mod), name=f'persist_d{depth}_{ka}',
+            r = ctx.tlc('MC_Persist', cfg(depth, ka=ka, modes=modes, emitmod=mod), name=f'persist_d{depth}_{ka}_{modes}',
                         timeout=1700, coverage=False)
-            results.append((r, f'd{depth}'))
+            results.append((r, f'd{depth}{modes}'))
         table = check_key_table(ctx, results[0][0])
         ctx.extra['kinds_in_spec'] = sorted(table)
         # ---- catalogue matrix (decides which features may be used inside histories)
         safe = run_matrix(ctx, pool)
         ctx.extra['features_used_in_histories'] = {k: len(v) for k, v in safe.items()}
+        ok, out, n = P.pathlib_probe(str(ctx.scratch / 'pathlib'))
+        ctx.count(n)
+        for key, demanded, what, case in out:
+            ctx.violation(f'{PID}/{key}', what, case)
+        safe['__pathlib__'] = ok             # unusable combinations fall back to the str name inside histories
+        ctx.extra['pathlib_targets_usable'] = ok
         # ---- S -> I
         total = 0
         for r, label in results:
@@ -447,9 +457,9 @@ def run(ctx):
         ctx.traces += total
         seen = ctx.extra.pop('_classes')
         ctx.extra['event_classes_executed'] = len(seen)       # (op, fmt, mode, overwrite, source, outcome)
-        need = [('save', f, m, ow, 0, 'Ok') for f in P.FMTS for m in ('path', 'fresh', 'kept') for ow in (0, 1)] + \
-               [('save', 'hdf5', 'path', 0, 0, 'Refused')] + \
-               [('load', f, m, 0, 0, 'Ok') for f in P.FMTS for m in ('path', 'fresh')] + [('close', '', '', 0, 0, 'Ok')]
+        need = [('save', f, m, ow, 0, 'Ok') for f in P.FMTS for m in ('path', 'pathlib', 'fresh', 'kept') for ow in (0, 1)] + \
+               [('save', 'hdf5', 'path', 0, 0, 'Refused'), ('save', 'hdf5', 'pathlib', 0, 0, 'Refused')] + \
+               [('load', f, m, 0, 0, 'Ok') for f in P.FMTS for m in ('path', 'pathlib', 'fresh')] + [('close', '', '', 0, 0, 'Ok')]
         missing = [c for c in need if c not in seen]
         for f in P.FMTS:                   # the reloaded object saved again, in both formats
             if not any(c[0] == 'save' and c[1] == f and c[4] == 1 and c[5] == 'Ok' for c in seen):
@@ -461,5 +471,5 @@ def run(ctx):
         ctx.extra['recorded_histories'] = n
         # ---- clause c
         structural(ctx, pool, safe, 2400 if thorough else 480, 1500 if thorough else 250, 8)
-    spec_nonvacuity(ctx, list(BROKEN) if thorough else ['no_remove', 'refusal_cleans_up'])
+    spec_nonvacuity(ctx, list(BROKEN) if thorough else ['no_remove', 'guard_str_only'])
     probes(ctx)
